@@ -5,7 +5,8 @@ iterator tables with affine positions (KmerIter / KmerExtsIter: yield while pos 
 start at pos = K with the k-mer at 0 — hence exactly max(0, n-K+1) items in order; flanking extensions with the caller's
 boundary extensions only at the two ends); first/last/terminal accessors; byte containers (from_bytes of bytes[pos..pos+K]);
 the slice remap tables; the bulk constructors' lockstep rules, and exactly on every k-mer type: from_bytes / from_ascii build the
-K bases given, kmers_from_bytes / kmers_from_ascii of n = K-1, K, K+2 bases yield max(0, n-K+1) items, item i = bases i..i+K."""
+K bases given, kmers_from_bytes / kmers_from_ascii of n = K-1, K, K+2 bases yield max(0, n-K+1) items, item i = bases i..i+K.
+Added later: Lmer new/len for every capacity, override table of the k-mer iterators, end-to-end iterator lemmas over views, accessors at lengths K+1..K+5."""
 from .. import lemmas, dt_seq, structural
 from . import common
 
